@@ -21,7 +21,65 @@ def witness_u3(v, tier):
     return {'found': False, 'tried': (out or {}).get('tried'), 'note': err}
 
 
+def witness_u9(v, tier):
+    out, err = _replay(['u9', 'find', '3' if tier == 'thorough' else '2'])
+    if out and out.get('found'):
+        w = out['witness']
+        return {'found': True, 'witness': w, 'real': out['real'], 'tried': out['tried'],
+                'replay_args': ['u9', 'replay', json.dumps(w)]}
+    return {'found': False, 'tried': (out or {}).get('tried'), 'note': err}
+
+
+C20_WITNESS = {'doc': 'a = b\nc = b\n'}
+
+
+def extra_c20(prop, tier, seed):
+    """The hypothesis of lemma_parent_is_syntactic (node equality distinguishes occurrences) cannot be
+    discharged by either verifier (Identifier::eq is to_string()==to_string(), core::fmt); it is
+    REFUTED by replaying a concrete document on the real code.  Bounded part, never counted as proof:
+    a small-scope enumeration of documents outside the known class."""
+    res = {'violations': [], 'bounded': [], 'notes': []}
+    out, err = _replay(['u9', 'replay', json.dumps(C20_WITNESS)])
+    if out is None:
+        raise engine.Undecided('replay-failed', err)
+    if out.get('violates'):
+        res['violations'].append({
+            'unit': 'U9', 'label': 'parent:node-equality-identifies-occurrence', 'fn': 'impl PartialEq for Identifier',
+            'message': 'hypothesis injective_on(arena) of lemma_parent_is_syntactic is false on the real code',
+            'clause': ['injective_on(a)'], 'engine': 'replay', 'verifier_output': json.dumps(out),
+            'fixed_witness': {'found': True, 'witness': C20_WITNESS, 'real': out.get('real'),
+                              'replay_args': ['u9', 'replay', json.dumps(C20_WITNESS)]}})
+    n = '3' if tier == 'thorough' else '2'
+    out2, err2 = _replay(['u9', 'find', n])
+    if out2 is None:
+        raise engine.Undecided('replay-failed', err2)
+    res['bounded'].append({'check': 'every document of <= %s rules `name = type` over 11 type spellings, outside the '
+                                    'known class (no identifier text occurring twice): every checked node returns '
+                                    'its syntactic parent' % n, 'bound': '%s rules' % n,
+                           'documents': out2.get('tried'), 'skipped_known_class': out2.get('skipped_known_class'),
+                           'found': out2.get('found')})
+    if out2.get('found'):
+        res['violations'].append({
+            'unit': 'U9', 'label': 'parent:query-returns-syntactic-parent', 'fn': 'ParentVisitor',
+            'message': 'parent query differs from the syntactic parent on a document outside the known class',
+            'clause': [], 'engine': 'replay', 'verifier_output': json.dumps(out2),
+            'fixed_witness': {'found': True, 'witness': out2['witness'], 'real': out2.get('real'),
+                              'replay_args': ['u9', 'replay', json.dumps(out2['witness'])]}})
+    return res
+
+
 PROPS = {
+    'C20': {
+        'vx': ['U9'],
+        'extra': [extra_c20],
+        'witness': witness_u9,
+        'technique': 'Verus contracts on ArenaTree::node / ParentVisitor::insert / CDDLType::parent (real code, real AST types) + conditional lemma; side condition refuted by replay on the real code',
+        'level_text': 'Deductive proof (Verus) of the lookup layer of the parent index against an abstract arena: node() returns the first slot whose value is == or appends without disturbing existing slots; insert() records the first registered parent only and changes nothing else; the parent query returns the parent of the first ==-equal registered node that has one. Lemma: if node equality is injective on registered nodes the query is the registered (syntactic) parent. That side condition is false for Identifier (equality by printed text) - a genuine defect recorded as a known finding with its witness.',
+        'level_note': 'Trusted: Verus+Z3, vstd Vec/slice-iterator specs, `==` on the foreign type cddl::ast::CDDLType named by vstd PartialEqSpec::eq_spec (nothing assumed about the relation). Unverified: the 800-line Visitor traversal that registers edges (so "every reachable node is registered with its container" is not proved), the impl_parent! typed wrappers. The bounded document enumeration is not counted as proof.',
+        'design_ref': 'DESIGN.md 4 U9',
+        'scope': 'lookup layer of src/ast/parent.rs; traversal not under contract',
+        'assumptions': ['the Visitor traversal registers (parent, child) for every syntactic edge in pre-order (not verified)'],
+    },
     'C15': {
         'vx': ['U3'],
         'witness': witness_u3,
@@ -51,5 +109,4 @@ PENDING = {
     'C11': 'check not built yet: planned decoder proof (unit U1)',
     'C12': 'check not built yet: stretch unit U4',
     'C14': 'check not built yet: stretch unit U8',
-    'C20': 'check not built yet: planned parent-arena contracts (unit U9)',
 }
